@@ -19,7 +19,7 @@ from pycel.excelutil import (
     NA_ERROR,
     VALUE_ERROR,
 )
-from pycel.lib.function_helpers import excel_helper
+from pycel.lib.function_helpers import caller_name_space, excel_helper
 
 
 CELL_INFO_TYPE = ['contents']
@@ -40,8 +40,11 @@ def cell(info_type, ref):
         else:
             current_cell = ref
 
-        _C_ = cell.excel_func_meta['name_space']['_C_']
+        _C_ = caller_name_space(cell)['_C_']
         return _C_(current_cell.address)
+
+
+cell.needs_name_space = True
 
 
 # def error.type(value):
